@@ -365,6 +365,43 @@ func (c *c07) composeDC(cd *c07Coding, dc coding.DataCoding, rs []rune, ref uint
 			}
 		}
 	}
+	if cls == 1 {
+		// what comes back TOGETHER with the error (named results): nothing is required by the property (it is conditional on
+		// success); recorded, and in the multi-part path checked to be a well-formed beginning of the message - a caller that
+		// ignores the error then sends an incomplete message, not a malformed one
+		multi := false
+		guard(func() { multi = dc.Splitter().Len(text) > 140 })
+		r.Hist[fmt.Sprintf("error returned together with %s", map[bool]string{true: "parts (multi-part path)", false: "one part (single-part path)"}[multi && len(parts) > 0 || !multi && len(parts) == 1])]++
+		if multi && len(parts) > 0 {
+			var joined []rune
+			bad := ""
+			for i, p := range parts {
+				h := p.UDHeader.ConcatenatedHeader()
+				if p.UDHeader.Len()+len(p.Message) > 140 || len(p.UDHeader) != 1 || h == nil || h.Reference != ref || int(h.Sequence) != i+1 {
+					bad = fmt.Sprintf("part %d: header %v, %d + %d octets", i+1, p.UDHeader, p.UDHeader.Len(), len(p.Message))
+					break
+				}
+				d, _, _ := implDecode(dc, p.Message)
+				joined = append(joined, []rune(d)...)
+			}
+			if bad == "" && !cd.gsm && (len(joined) > len(rs) || !eqRunes(joined, rs[:len(joined)])) {
+				bad = "the parts do not decode to a beginning of the text: " + describeText(joined)
+			}
+			if bad != "" {
+				r.Fail("error/"+cd.name+"-parts-returned-with-the-error-are-malformed", "parts returned together with an error are not a well-formed beginning of the message", in, bad, "no parts, or the first parts of the message")
+			}
+			var ro []string
+			for _, p := range parts {
+				ro = append(ro, fmt.Sprintf("(%s, %s)", coqUDH(p.UDHeader), coqHex(p.Message)))
+			}
+			switch {
+			case cd.gsm:
+				r.Case(in+" (returned with the error)", fmt.Sprintf("returned_obs_ok beq_bytes (compose_returned_multi bytes (@List.length N) w_7bit Gsm7.encode %d %s) %s", ref, coqText(rs), coqList(ro)))
+			case dc == cd.c:
+				r.Case(in+" (returned with the error)", fmt.Sprintf("returned_obs_ok beq_bytes (compose_returned_multi bytes (@List.length N) (w_of %s) (Charset.encode %s) %d %s) %s", cd.cs, cd.cs, ref, coqText(rs), coqList(ro)))
+			}
+		}
+	}
 	if cls != 1 && wcls == 0 {
 		// a text needing more than 254 parts must be refused: lower bound on the parts from the encoded size
 		if (len(whole)+139)/140 > 254 {
